@@ -418,6 +418,8 @@ pub struct OpRes {
     /// descriptors open in the process before / after the op
     pub fds_before: usize,
     pub fds_after: usize,
+    /// the source path of a successful set/put still exists
+    pub source_left: bool,
 }
 
 impl OpRes {
@@ -500,6 +502,20 @@ fn read_hit(sim: &Arc<Sim>, proc: usize, mut f: File, read: bool) -> std::io::Re
     Ok(Out::Hit { data, fd })
 }
 
+struct SourceProbe<'a> {
+    left: &'a Mutex<bool>,
+    path: PathBuf,
+    sim: &'a Arc<Sim>,
+}
+
+impl Drop for SourceProbe<'_> {
+    fn drop(&mut self) {
+        if !std::thread::panicking() {
+            *self.left.lock().unwrap() = self.sim.lock().fs.exists(&self.path.to_string_lossy());
+        }
+    }
+}
+
 pub struct OpEnv {
     pub sim: Arc<Sim>,
     pub proc: usize,
@@ -536,6 +552,8 @@ pub fn exec_op(env: &OpEnv, op_id: u32, hidx: usize, h: &Handle, kidx: usize, ke
     let judge_saw: Mutex<Option<(bool, Vec<u8>)>> = Mutex::new(None);
     let populate_called = Mutex::new(false);
     let populate_old: Mutex<Option<Vec<u8>>> = Mutex::new(None);
+    let source_left = Mutex::new(false);
+    let exists = |p: &Path| -> bool { env.sim.lock().fs.exists(&p.to_string_lossy()) };
     LAST_PANIC.with(|l| *l.borrow_mut() = None);
 
     let body = || -> std::io::Result<Out> {
@@ -572,6 +590,7 @@ pub fn exec_op(env: &OpEnv, op_id: u32, hidx: usize, h: &Handle, kidx: usize, ke
                 } else {
                     c.put(name, tmp.path())?;
                 }
+                *source_left.lock().unwrap() = exists(tmp.path());
                 Ok(Out::Unit)
             }
             (Handle::Sharded(c), Op::Set { tag, plen }) | (Handle::Sharded(c), Op::Put { tag, plen }) | (Handle::Sharded(c), Op::SetTemp { tag, plen }) | (Handle::Sharded(c), Op::PutTemp { tag, plen }) => {
@@ -583,6 +602,7 @@ pub fn exec_op(env: &OpEnv, op_id: u32, hidx: usize, h: &Handle, kidx: usize, ke
                 } else {
                     c.put(key.key(), tmp.path())?;
                 }
+                *source_left.lock().unwrap() = exists(tmp.path());
                 Ok(Out::Unit)
             }
             // ---------------------------------------------------- stacked writes
@@ -592,12 +612,16 @@ pub fn exec_op(env: &OpEnv, op_id: u32, hidx: usize, h: &Handle, kidx: usize, ke
                 if r.is_err() {
                     // the application owns its source on failure
                     let _ = kismet_vfs::std::fs::remove_file(&src);
+                } else {
+                    *source_left.lock().unwrap() = exists(&src);
                 }
                 r.map(|_| Out::Unit)
             }
             (Handle::Stack(c), Op::SetTemp { tag, plen }) | (Handle::Stack(c), Op::PutTemp { tag, plen }) => {
                 let mut tmp = NamedTempFile::new_in(&env.scratch)?;
                 write_chunked(tmp.as_file_mut(), &make_value(name, *tag, *plen), env.chunk)?;
+                let tmp_path = tmp.path().to_path_buf();
+                let _guard = SourceProbe { left: &source_left, path: tmp_path, sim: &env.sim };
                 if matches!(op, Op::SetTemp { .. }) {
                     c.set_temp_file(key.key(), tmp)?;
                 } else {
@@ -686,6 +710,7 @@ pub fn exec_op(env: &OpEnv, op_id: u32, hidx: usize, h: &Handle, kidx: usize, ke
         populate_old: populate_old.lock().unwrap().take(),
         fds_before,
         fds_after,
+        source_left: *source_left.lock().unwrap(),
     };
     match r {
         Ok(Ok(o)) => res.out = Ok(o),
